@@ -574,6 +574,7 @@ static void x_once(const plan_t *p)
     tabseed = p->cfg[CF_TABSEED];
     prng_seed(&aprng, p->cfg[CF_TABSEED] ^ 0xa0d17);
     next_id = 0; nlimbo = 0; maxreach = 0; ncalls = 0; bad_at = 0; bad_returned = 0; m0_seen = 0;
+    memset(tb, (int)(unsigned char)p->cfg[CF_JUNK], sizeof tb);      /* init on junk memory, as on a stack */
     for (t = 0; t < NTAB; t++) {
         cstl_hash_init(&tb[t], offsetof(struct xelem, hn));
         memset(&mt[t], 0, sizeof mt[t]);
